@@ -16,4 +16,8 @@ namespace embedded_pairing::core {
     template struct FpBase<384>;
     template struct Fp<384, bls12_381::fq_modulus_var, bls12_381::fq_R_var, bls12_381::fq_R2_var, bls12_381::fq_inv_var>;
     template struct Fp<256, bls12_381::fr_modulus_var, bls12_381::fr_R_var, bls12_381::fr_R2_var, bls12_381::fr_inv_var>;
+    template void fp_inverse<bls12_381::Fq>(bls12_381::Fq&, const bls12_381::Fq&);
+    template void fp_inverse<bls12_381::Fr>(bls12_381::Fr&, const bls12_381::Fr&);
+    template void exponentiate<bls12_381::Fr, BigInt<256> >(bls12_381::Fr&, const bls12_381::Fr&, const BigInt<256>&);
+    template void exponentiate<bls12_381::Fq, BigInt<384> >(bls12_381::Fq&, const bls12_381::Fq&, const BigInt<384>&);
 }
